@@ -48,6 +48,8 @@ structure ConcObs where
   q : Nat
   unstable : Bool
   bb : Bool := false   -- black-box observation (hook stub): go/q are States() samples, not usable for equalities
+  bbq : Bool := false  -- black-box quiescence established by the harness (every accepted task accounted for,
+                       -- or all run / handed-back counters unchanged for a generous time)
   cstart : Nat := 0    -- tasks that began to run with the pool context already cancelled
   deriving Repr, Inhabited
 
@@ -95,7 +97,7 @@ def c10Conc (o : ConcObs) : Option String :=
     let nowOk := o.calls.any fun c => c.kind == "N" && c.ok
     if !o.unstable && !o.bb && o.go == 0 && acc != done + o.q then
       some s!"C10 at quiescence {acc} accepted tasks but {done} executed-or-returned and {o.q} still queued"
-    else if !o.unstable && o.go == 0 && nowOk && acc != done then
+    else if !o.unstable && (if o.bb then o.bbq else o.go == 0) && nowOk && acc != done then
       -- after ShutdownNow nothing may be left behind: executed or handed back, never neither
       some s!"C10 after ShutdownNow {acc} accepted tasks but only {done} were executed or handed back"
     else none
@@ -220,7 +222,7 @@ def finished (t : STask) (runs : Nat) : Bool := runs == 1 && (t.beh != "block" |
 
 /-- snapshot laws, selected by property -/
 def SeqMon.snap (m : SeqMon) (prop : String) (go q : Nat) (dn : Bool) (runs : List Nat) (atEnd : Bool)
-    (bb : Bool := false) : Option String :=
+    (bb : Bool := false) (bbq : Bool := false) : Option String :=
   let rs := runs.toArray
   let idx := List.range m.tasks.size
   if prop == "C11" then
@@ -241,7 +243,7 @@ def SeqMon.snap (m : SeqMon) (prop : String) (go q : Nat) (dn : Bool) (runs : Li
       let done := runs.foldl (· + ·) 0 + m.returned.length
       if atEnd && !bb && go == 0 && acc != done + q then
         some s!"C10 at quiescence {acc} accepted tasks but {done} executed-or-returned and {q} still queued"
-      else if atEnd && go == 0 && m.life == .stopped && !m.graceful && acc != done then
+      else if atEnd && (if bb then bbq else go == 0) && m.life == .stopped && !m.graceful && acc != done then
         some s!"C10 after ShutdownNow {acc} accepted tasks but only {done} were executed or handed back"
       else none
   else if prop == "C12" then
